@@ -5,7 +5,7 @@
 
 Require Extraction.
 Require Import ExtrOcamlBasic.
-From Sodg Require Import Base Text Hex Label Sodg Esort Print Export Slice Merge Serial Script Spec SpecDec XShow.
+From Sodg Require Import Base Text Hex Label Sodg Esort Print Export Slice Merge Serial Script Spec SpecDec XShow HexMore.
 
 Extraction Language OCaml.
 
@@ -18,6 +18,7 @@ Extraction "Model.ml"
   wf_hex hex_empty bytes hex_len hex_is_empty from_slice from_vec hex_to_vec hex_eqb
   hex_index hex_range hex_byte_at hex_tail hex_print hex_from_str hex_concat
   hex_to_i64 hex_from_i64 hex_to_f64_bits hex_from_f64_bits
+  hex_set hex_from_str_bytes hex_to_bool hex_to_utf8 hex_from_int hex_from_f32_bits hex_from_bool
   (* label *)
   wf_label label_eqb label_compare label_print label_from_str
   (* graph *)
